@@ -11,7 +11,8 @@ func vEncode(v *REC, mode int) []byte {
 	case 0:
 		return v.MarshalBebop()
 	case 1:
-		buf := make([]byte, v.Size())
+		// into a buffer that held something else before (a recycled buffer)
+		buf := vstub.NondetBytes(v.Size())
 		v.MarshalBebopTo(buf)
 		return buf
 	}
@@ -114,6 +115,25 @@ func VH_C03() {
 	var w3 REC //MUST
 	w3.MustUnmarshalBebop(ref2) //MUST
 	vstub.Assert("c03.dec.must.eq", vEq_Rec(v, w3)) //MUST
+	if vHasDepr {
+		// an older writer still sends the fields this schema has deprecated: a
+		// conformant encoding, which every decoder reads completely
+		old := vRefD_Rec(nil, v)
+		var d1 REC
+		err = d1.UnmarshalBebop(old)
+		vstub.Assert("c03.depr.unmarshal.err", err == nil)
+		vstub.Assert("c03.depr.unmarshal.eq", vEqD_Rec(v, d1))
+		var d2 REC
+		fd := vstub.NewFragReader(old)
+		fd.Full = true
+		err = d2.DecodeBebop(fd)
+		vstub.Assert("c03.depr.decode.err", err == nil)
+		vstub.Assert("c03.depr.decode.eq", vEqD_Rec(v, d2))
+		vstub.Assert("c03.depr.decode.pos", fd.Pos == len(old))
+		var d3 REC //MUST
+		d3.MustUnmarshalBebop(old) //MUST
+		vstub.Assert("c03.depr.must.eq", vEqD_Rec(v, d3)) //MUST
+	}
 	vstub.Reach("c03")
 }
 
